@@ -1,5 +1,6 @@
 import GA.Lemmas.IterOwn
 import GA.Lemmas.Ops
+import GA.Props.C04
 /-!
 # C05 — a panicking element destructor never causes a second drop or a stale read
 
@@ -9,7 +10,7 @@ facts (`nth` stores the index *before* dropping the skipped range) are regenerat
 src/iter.rs and enter through `GA.Bridge.IterOwn`.
 -/
 namespace GA.Props.C05
-open GA.Iter GA.IterOwn GA.Own GA.Gen
+open GA.Iter GA.IterOwn GA.Own GA.Gen GA.Ops
 
 /-- **`nth`**: the destructors run inside `nth`, the element handed to the caller, and the elements
     the iterator's own `Drop` releases afterwards are pairwise distinct — whichever destructor
@@ -69,6 +70,18 @@ theorem consumer_drop_once (slots : List Id) (pos : Nat) (hnd : slots.Nodup) (ba
   unfold sliceOf
   rw [List.take_of_length_le]; simp
 
+/-- **teardown of `try_from_iter` / `from_iter` intermediates** (stack and boxed, every script and
+    hint) when any one element's destructor panics: no element is released twice and none that was
+    never written is released — the event sequence is `collectOp`'s, whose ledger is C04's -/
+theorem collect_teardown_once (boxed try_ : Bool) (n : Nat) (hint : Nat × Option Nat) (sc : Script) (bad : Option Id) :
+    (collectOpD boxed try_ n hint sc bad).1 = (collectOp boxed try_ n hint sc).1 ∧
+    C04.Ledger [] (collectOp boxed try_ n hint sc) := by
+  refine ⟨?_, C04.collect_ledger boxed try_ n hint sc⟩
+  unfold collectOpD
+  cases bad with
+  | none => rfl
+  | some b => simp only []; split <;> rfl
+
 /-- the array's own drop glue runs over all `N` slots once (C01: the storage holds exactly the
     `N` elements), and a panicking destructor does not repeat any -/
 theorem array_drop_once (xs : List Id) (hnd : xs.Nodup) (bad : Option Id) :
@@ -101,3 +114,4 @@ end GA.Props.C05
 #print axioms GA.Props.C05.builder_drop_once
 #print axioms GA.Props.C05.consumer_drop_once
 #print axioms GA.Props.C05.array_drop_once
+#print axioms GA.Props.C05.collect_teardown_once
